@@ -385,6 +385,8 @@ def run(repo: Repo, rep: Report, tier: str) -> None:
     from ..delegate import delegate
     rep.rule("reply-delivered", "the response (status and data set) is cut into fragments the requestor can reassemble for every length (C15's fragmentation rules)")
     delegate(repo, rep, tier, "C15", ("overhead", "overhead-count", "order-flags", "one-pdv"), "reply-delivered", "for some reply sizes the response carrying the handler's status and data set is never completed on the wire: the requestor gets neither")
+    rep.rule("status-known", "every status (and every code of every status range) the documentation lists for a service is known to that service's table (C28's docs-agreement)")
+    delegate(repo, rep, tier, "C28", ("docs-agreement",), "status-known", "a handler returning that documented status is answered through the 'unknown status' branch: the status goes out bare, without the data set / identifier the handler supplied and without the sub-operation counts")
     rep.rule("reply-syntax", "every encode / decode of a data set takes all three flags (implicit VR, byte order, deflated) from one transfer-syntax object (C25's codec-flags rule)")
     delegate(repo, rep, tier, "C25", ("codec-flags",), "reply-syntax", "the data set the handler supplied reaches the peer in a different encoding than the context's transfer syntax (e.g. not deflated on a Deflated context): the peer cannot read the reply's data set although the status says Success")
 
